@@ -90,6 +90,22 @@ def main():
             self.name, self.case = name, case
 
     ppk = [ProbePkg(i, n, cs) for i, (n, cs) in enumerate(probes)]
+
+    # ---- B2. a stream whose first value is one large array of fixed-width elements (read with a single bulk request for more bytes
+    #      than everything that precedes it), then a one-byte tail: cuts inside the array
+    import struct as _struct
+    arr_types = [t for t, cs in types if t["k"] == "ndarr" and t.get("r") == 1 and t["t"].get("k") == "prim" and t["t"].get("p") == "float32"]
+
+    class FirstBigPkg(we.Package):
+        def __init__(self, idx, t, n):
+            enc = wirelib.varint(n) + _struct.pack("<f", 1.5) * n
+            self.bigcase = {"enc_b": [enc], "json": [None], "jsonable": False, "i": 1, "enc": [list(enc[:8])]}
+            we.Package.__init__(self, 150 + idx, [(t, [self.bigcase]), (u8t, [tail])], sc)
+            for s in self.steps:
+                s["stream"] = False
+            self.n_streams = 0
+            self.count = n
+    fbk = [FirstBigPkg(0, arr_types[0], 12000)] if arr_types else []
     # ---- C/D. small streams: a few packages of the wire universe
     rest = [x for x in types if not we.cpp_unbuildable(x[0])]
     c.rng.shuffle(rest)
@@ -99,7 +115,7 @@ def main():
     bigrecs = pmap(we.export_big, pads, jobs=4)
     bp = we.BigPackage(sc, bigrecs[0])
     notes = []
-    good, bad = we.prepare(ppk + small + [bp], yardl, home, notes=notes, sanitize=thorough)
+    good, bad = we.prepare(ppk + fbk + small + [bp], yardl, home, notes=notes, sanitize=thorough)
     for n in notes:
         c.note(n)
     if len(bad) > 2:
@@ -131,6 +147,16 @@ def main():
             cuts |= set(hl + 3 + (k * padlen) // 8 for k in range(1, 8)) | {hl + 4, hl + 3 + padlen - 1}
             cuts = sorted(x for x in cuts if 0 < x < len(data))
             jobs.append(("probe", p, "binary", data, cuts, {"probe": p.name, "starts_before_boundary": r, "probe_bytes": p.case["enc"][0]}, None))
+    # B2
+    for p in fbk:
+        if not p.ok:
+            continue
+        vals = [("value", p.bigcase), ("value", tail)]
+        data = p.spec_binary(vals)
+        hl = len(wirelib.binary_header(p.schema))
+        ln = len(p.bigcase["enc_b"][0])
+        cuts = sorted(set([hl + int(ln * f) for f in (0.1, 0.3, 0.52, 0.6, 0.75, 0.9, 0.99)] + [hl + ln - 1, hl + ln, len(data) - 1]))
+        jobs.append(("first-big", p, "binary", data, cuts, {"elements": p.count, "element": "float32"}, None))
     # C, D
     for p in small:
         if not p.ok:
